@@ -181,7 +181,8 @@ partial def npSolve (depth : Nat) (g : MVarId) : MetaM Unit := g.withContext do
       let s ← saveState
       try
         let gs ← withReducible (g.apply ld.toExpr)
-        for g' in gs do npSolve (depth - 1) g'
+        for g' in gs do
+          unless (← g'.isAssigned) do npSolve (depth - 1) g'
         return
       catch _ => s.restore
     throwError "npSolve: no hypothesis applies"
@@ -198,7 +199,8 @@ elab "np_hyp" : tactic => withMainContext do
       let s ← saveState
       try
         let gs ← withReducible (g.apply ld.toExpr)
-        for g' in gs do npSolve 2 g'
+        for g' in gs do
+          unless (← g'.isAssigned) do npSolve 2 g'
         replaceMainGoal []
         return
       catch _ => s.restore
